@@ -6,7 +6,11 @@ hyperedges/nodes inserted and removed, re-insertions, keep_edges shrinks, clear(
 metadata reached through set_attr/remove_attr ...), so that the internal id
 tables are not the trivial ones; it is saved into a fresh TemporaryDirectory,
 loaded, and the complete public observation of the loaded object (the observe
-functions of C01..C04) is compared with that of the original taken before saving.
+functions of C01..C04) is compared with that of the original taken before saving,
+by value and (unfiltered queries) by type of every label, weight and metadata value;
+the saved object itself is observed again after every save (values, types, listing order).
+File names have dotted stems / dotted directories; ``binary`` is omitted for half of the
+text saves.
 
 hMETIS: a grammar strategy renders a syntactically valid .hgr file; the oracle is
 the list of hyperedges the generator emitted.
@@ -41,6 +45,17 @@ ASSUMPTIONS = [
     "is compared modulo the implementation-set keys weighted/type (weightedness itself is "
     "compared through is_weighted and the weights)",
     "MultiplexHypergraph.get_existing_layers is not compared (layers of removed records: unspecified)",
+    "files are written as <stem>.<json|hgx> with stem in {g, my.graph, a.b.c}, optionally below "
+    "a fresh sub-directory whose names contain dots; binary always agrees with the extension and "
+    "is omitted (documented default False) for half of the text saves",
+    "saving does not modify the object: the full observation (values and their types) and the "
+    "ORDER of get_nodes() / get_edges() of the saved object are the same before and after every "
+    "save (orders are only ever compared on one and the same object)",
+    "loaded vs. original are also compared by type (int / float / bool / str, of labels, times, "
+    "weights and metadata values; list == tuple) on the unfiltered queries, reported under the "
+    "separate key loaded-differs-in-type; both formats can represent these types",
+    "in the second save of a round-trip case weights 0, 2**60 and -2 are set on further hyperedges "
+    "when there are enough (a container that refuses -2 with ValueError is excluded and counted)",
     "every round-trip case saves the object twice: as built, and again after "
     "set_hypergraph_metadata(<drawn dict>) (wholesale replacement, the implementation-set fields "
     "are gone) and, when weighted, after one weight became a non-integer float; then the same "
@@ -49,7 +64,7 @@ ASSUMPTIONS = [
     "hMETIS: header 'E N [fmt]', fmt in {absent,0,1,10,11}; distinct node sets; tokens of the "
     "header and of the hyperedge lines separated by one or more spaces (no tabs), optional leading "
     "and trailing blanks; vertex-weight lines iff fmt >= 10; '%' comment lines "
-    "and blank lines anywhere; which of the N vertices become nodes is not part of the statement "
+    "and blank lines anywhere; N up to 15; lines end in \\n or (all of them) in \\r\\n; which of the N vertices become nodes is not part of the statement "
     "(any set between the union of the hyperedges and 1..N is accepted)",
     "HIF: documents with the three lists nodes/edges/incidences, unique node and edge ids, no "
     "repeated incidence pair, type absent/'undirected'/'asc'; two edge ids with the same incidence "
@@ -94,6 +109,97 @@ def _norm_obs(o, strip_reserved):
     user = ({f: jnorm(x) for f, x in hg.items() if f not in B.HG_OWN}
             if isinstance(hg, dict) else hg)
     return o, user
+
+
+def type_diff(e, o, path=""):
+    """First place where two == observations differ in the TYPE of a label, weight or
+    metadata value (1 / 1.0 / True, "2" / 2), as text; None when there is none.  Lists and
+    tuples count as one type (JSON arrays); containers are matched element by element."""
+    seq = (list, tuple)
+    if isinstance(e, seq) and isinstance(o, seq):
+        for i, (x, y) in enumerate(zip(e, o)):
+            d = type_diff(x, y, "%s[%d]" % (path, i))
+            if d:
+                return d
+        return None
+    if isinstance(e, dict) and isinstance(o, dict):
+        theirs = {kk: kk for kk in o}
+        for kk in e:
+            if kk not in theirs:
+                continue
+            d = (type_diff(kk, theirs[kk], "%s<key %r>" % (path, kk))
+                 or type_diff(e[kk], o[theirs[kk]], "%s[%r]" % (path, kk)))
+            if d:
+                return d
+        return None
+    if isinstance(e, (set, frozenset)) and isinstance(o, (set, frozenset)):
+        theirs = {x: x for x in o}
+        for x in e:
+            if x in theirs:
+                d = type_diff(x, theirs[x], "%s{%r}" % (path, x))
+                if d:
+                    return d
+        return None
+    if type(e) is not type(o):
+        return "%s: expected %r (%s), got %r (%s)" % (path or "value", e, type(e).__name__, o,
+                                                      type(o).__name__)
+    return None
+
+
+def _typed(o):
+    """The part of an observation whose types are compared: the unfiltered queries (the
+    filtered listings and the per-node tables restate the same labels, weights and metadata
+    dicts many times over)."""
+    return {q: v for q, v in o.items()
+            if isinstance(q, str) and not (isinstance(v, dict) and v
+                                           and all(isinstance(x, dict) and any(
+                                               isinstance(kk, tuple) or kk is None for kk in x)
+                                               for x in v.values()))
+            and q != "get_edges(time_window)"}
+
+
+STEMS = ["g", "my.graph", "a.b.c"]
+
+
+def _save_to(save, obj, d, fmt, sel, ctx):
+    """Save obj below directory d as <stem>.<fmt>; the selector chooses the file stem (with or
+    without dots), a sub-directory with dots in its names, and whether the ``binary`` argument
+    is left at its default (False) for the text format.  The extension always agrees with
+    ``binary``.  Returns the path."""
+    stem = STEMS[sel % 3]
+    if (sel // 3) % 2:
+        d = os.path.join(d, "run.1", "v2.0")
+        os.makedirs(d, exist_ok=True)
+        ctx.label("path:dotted_directory")
+    if stem != "g":
+        ctx.label("path:dotted_stem")
+    path = os.path.join(d, stem + "." + fmt)
+    if fmt == "json" and (sel // 6) % 2:
+        save(obj, path)
+        ctx.label("binary_argument_omitted")
+    else:
+        save(obj, path, binary=(fmt == "hgx"))
+    return path
+
+
+def _listing(h):
+    """the plain listings, in the order the object gives them"""
+    return {"get_nodes()": list(h.get_nodes()), "get_edges()": list(h.get_edges())}
+
+
+def _require_untouched(h, k, U, probes, before, before_listing, how):
+    after = k.observe(h, U, probes)
+    df = diff_obs(before, after)
+    require(df is None, lambda: "%s modified the object it saved: %s" % (how, df),
+            key="save-mutates")
+    td = type_diff(_typed(before), _typed(after))
+    require(td is None, lambda: "%s modified the object it saved (type of a value): %s"
+            % (how, td), key="save-mutates-type")
+    after_listing = _listing(h)
+    require(after_listing == before_listing,
+            lambda: "%s changed the order in which the saved object lists its nodes / hyperedges: "
+                    "before %r, after %r" % (how, before_listing, after_listing),
+            key="save-reorders")
 
 
 # --------------------------------------------------------------------------
@@ -157,14 +263,20 @@ def _roundtrip(fmt):
         save, load = _io()
         h, T, U, k, probes, nontrivial = build_object(case, ctx)
 
+        trips = []
+
         def round_trip(phase, obj=None, src_is_text_loaded=False):
             obj = h if obj is None else obj
             before = k.observe(obj, U, probes)
+            listing = _listing(obj)
+            trips.append(phase)
             with tempfile.TemporaryDirectory() as d:
-                path = os.path.join(d, "g." + fmt)
-                save(obj, path, binary=(fmt == "hgx"))
+                path = _save_to(save, obj, d, fmt, case.get("path", 0) + 5 * (len(trips) - 1), ctx)
                 loaded = load(path)
             what = "%s%s saved as .%s and loaded" % (T["type"], phase, fmt)
+            # saving does not modify the object being saved
+            _require_untouched(obj, k, U, probes, before, listing,
+                               "save_hypergraph(%s%s, binary=%s)" % (T["type"], phase, fmt == "hgx"))
             require(type(loaded).__name__ == T["type"],
                     lambda: "%s: type of the loaded object is %s, expected %s"
                     % (what, type(loaded).__name__, T["type"]), key="type")
@@ -177,6 +289,10 @@ def _roundtrip(fmt):
             require(ehg == ohg,
                     lambda: "%s: hypergraph metadata (without the keys weighted/type) expected %r, "
                             "got %r" % (what, ehg, ohg), key="hypergraph-metadata")
+            # ... with the same numeric / bool / str types (both formats can represent them)
+            td = type_diff(_typed(eo), _typed(oo)) or type_diff(ehg, ohg, "hypergraph metadata")
+            require(td is None, lambda: "%s: equal but of another type: %s   (built by %s)"
+                    % (what, td, _describe(ctx.trace)), key="loaded-differs-in-type")
             return loaded, what
 
         first_loaded, _ = round_trip("")
@@ -215,7 +331,24 @@ def _roundtrip(fmt):
                 k.ad.r_set_weight(h, k.ad.record_of_key(key0, 4), 0)
                 then.append(["set_weight", k.probe(key0), 0])
                 ctx.label("zero_weight")
-        loaded, what = round_trip(" (after %r)" % (then[-2:],))
+            # an integer beyond 2**53 (not a float in disguise) and a negative weight, on the
+            # second and the fourth hyperedge (which gets which depends on the case)
+            i_huge, i_neg = (1, 3) if case.get("path", 0) % 2 == 0 else (3, 1)
+            if len(T["order"]) > i_huge:
+                key1 = T["order"][i_huge]
+                k.ad.r_set_weight(h, k.ad.record_of_key(key1, 5), 2 ** 60)
+                then.append(["set_weight", k.probe(key1), 2 ** 60])
+                ctx.label("huge_int_weight")
+            if len(T["order"]) > i_neg:
+                key3 = T["order"][i_neg]
+                try:
+                    k.ad.r_set_weight(h, k.ad.record_of_key(key3, 6), -2)
+                    then.append(["set_weight", k.probe(key3), -2])
+                    ctx.label("negative_weight")
+                except ValueError:
+                    # nothing says that a negative weight can be stored
+                    ctx.exclude("the container refuses a negative hyperedge weight")
+        loaded, what = round_trip(" (after %r)" % (then[-4:],))
         # the loaded object is the same hypergraph: the same further calls (a new hyperedge on
         # possibly new nodes, then the removal of an old hyperedge) lead to the same observation
         ad = k.ad
@@ -236,6 +369,11 @@ def _roundtrip(fmt):
             require(d is None,
                     lambda: "%s, then %r applied to the original and to the loaded object: %s"
                     % (what, ops, d), key="loaded-diverges-after-further-calls")
+            td = type_diff(_typed(eo), _typed(oo))
+            require(td is None,
+                    lambda: "%s, then %r applied to the original and to the loaded object: equal "
+                            "but of another type: %s" % (what, ops, td),
+                    key="loaded-diverges-after-further-calls-in-type")
             ctx.label("further_calls_checked")
         # a loaded object is itself a hypergraph the property ranges over (its hyperedge
         # metadata may now carry the reserved keys the text format stores): change a weight
@@ -254,16 +392,22 @@ def _roundtrip(fmt):
 def check_save_pure(case, ctx):
     save, load = _io()
     h, T, U, k, probes, nontrivial = build_object(case, ctx)
+    how = ""
+    if case.get("wholesale_first"):
+        # the hypergraph metadata replaced wholesale: the implementation-set fields
+        # 'weighted' / 'type' are not in the dict when the object is saved
+        h.set_hypergraph_metadata(dc(case["wholesale"]))
+        ctx.trace["then"].append(["set_hypergraph_metadata", case["wholesale"]])
+        ctx.label("hypergraph_metadata_replaced_wholesale")
+        how = " after set_hypergraph_metadata(%r)" % (case["wholesale"],)
     before = k.observe(h, U, probes)
+    listing = _listing(h)
     order = ["json", "hgx"] if case["json_first"] else ["hgx", "json"]
     with tempfile.TemporaryDirectory() as d:
-        for fmt in order:
-            save(h, os.path.join(d, "g." + fmt), binary=(fmt == "hgx"))
-            after = k.observe(h, U, probes)
-            df = diff_obs(before, after)
-            require(df is None,
-                    lambda: "save_hypergraph(%s, binary=%s) modified the object it saved: %s"
-                    % (T["type"], fmt == "hgx", df), key="save-mutates")
+        for i, fmt in enumerate(order):
+            _save_to(save, h, d, fmt, case.get("path", 0) + 5 * i, ctx)
+            _require_untouched(h, k, U, probes, before, listing,
+                               "save_hypergraph(%s%s, binary=%s)" % (T["type"], how, fmt == "hgx"))
     ctx.label("type:" + T["type"])
     ctx.nontrivial(bool(T["edges"]) and (T["weighted"] or T["type"] in
                                          ("TemporalHypergraph", "MultiplexHypergraph")))
@@ -278,6 +422,7 @@ def _object_strategy(type_name, extra=None):
             "wholesale": B.rich_metadata(),
             "tuple_values": st.booleans(),
             "after": B.edge_content(),
+            "path": st.sampled_from(range(12)),
         }
         d.update(extra or {})
         return st.fixed_dictionaries(d)
@@ -292,7 +437,8 @@ COMMENTS = ["% a comment", "%", "   % indented comment 3 4", "%1 2 3", "%% 7 7",
 
 @st.composite
 def hgr_files(draw, tier):
-    n = draw(st.integers(1, 8))
+    # up to 15 vertices: ids with two digits
+    n = draw(st.one_of(st.integers(1, 8), st.integers(9, 15)))
     edges = draw(st.lists(
         st.lists(st.integers(1, n), min_size=1, max_size=min(n, 5), unique=True),
         min_size=draw(st.sampled_from([0, 1, 1, 1, 2, 2, 3])), max_size=6,
@@ -309,6 +455,7 @@ def hgr_files(draw, tier):
         "wide": draw(st.booleans()),           # several spaces between tokens of a hyperedge line
         "wide_header": draw(st.sampled_from([False] * 4 + [True])),
         "final_newline": draw(st.booleans()),
+        "crlf": draw(st.sampled_from([False, False, True])),   # lines end in \r\n
     }
 
 
@@ -326,7 +473,8 @@ def render_hgr(c):
     for pos, ci in sorted(c["decor"], key=lambda t: -t[0]):
         text = "" if ci == -1 else "   " if ci == -2 else COMMENTS[ci]
         lines.insert(pos % (len(lines) + 1), text)
-    return "\n".join(lines) + ("\n" if c["final_newline"] else "")
+    nl = "\r\n" if c.get("crlf") else "\n"
+    return nl.join(lines) + (nl if c["final_newline"] else "")
 
 
 def check_hmetis(case, ctx):
@@ -335,7 +483,7 @@ def check_hmetis(case, ctx):
     ctx.trace = {"file": text.split("\n")}
     with tempfile.TemporaryDirectory() as d:
         path = os.path.join(d, "g.hgr")
-        with open(path, "w") as f:
+        with open(path, "w", newline="") as f:     # (no newline translation: \r\n stays \r\n)
             f.write(text)
         h = load(path)
     weighted = case["fmt"] is not None and case["fmt"] % 10 == 1
@@ -370,6 +518,10 @@ def check_hmetis(case, ctx):
         ctx.label("several_spaces")
     if case["wide_header"]:
         ctx.label("several_spaces_in_header")
+    if case.get("crlf"):
+        ctx.label("crlf_line_endings")
+    if any(v >= 10 for e in case["edges"] for v in e):
+        ctx.label("two_digit_vertex_id")
     if not case["edges"]:
         ctx.label("no_hyperedges")
     ctx.nontrivial(has_comment and weighted and len(case["edges"]) >= 2)
@@ -532,7 +684,7 @@ CLAUSES = [
            quick=150, thorough=1000, rule=_RT_RULE)
     for fmt in ("json", "hgx") for name in B.TYPES
 ] + [
-    Clause("save_does_not_mutate", _object_strategy(None, {"json_first": st.booleans()}),
+    Clause("save_does_not_mutate", _object_strategy(None, {"json_first": st.booleans(), "wholesale_first": st.booleans()}),
            check_save_pure, quick=200, thorough=1000, shards_quick=2,
            rule="object with hyperedges that is weighted, temporal or multiplex (the text format "
                 "then writes reserved keys next to the hyperedge metadata)"),
